@@ -122,7 +122,7 @@ impl Case for C12Case {
                         w.stats.bump("c12.prefix_left_data_position");
                     }
                 }
-                H::Load { .. } | H::HostLoad { .. } => {}
+                H::Load { .. } | H::HostLoad { .. } | H::Snap | H::Restore => {}
             }
         }
         let mut fail: Option<Violation> = None;
@@ -319,7 +319,7 @@ impl Case for C12Case {
                 H::Line { text, .. } => Json::Str(format!("type {:?}", text)),
                 H::StopRun { line, intr: Some(k) } => Json::Str(format!("type {:?}, Ctrl-C after {} instructions", line, k)),
                 H::StopRun { line, intr: None } => Json::Str(format!("type {:?} and let it end by itself", line)),
-                H::Load { .. } | H::HostLoad { .. } => Json::Null,
+                H::Load { .. } | H::HostLoad { .. } | H::Snap | H::Restore => Json::Null,
             })
             .collect();
         let mode = match &self.mode {
